@@ -27,7 +27,7 @@ int main(int argc, char **argv) {
   if (cmd == "selftest-check" && argc >= 3) return selftest_check(argv[2]);
   if (cmd == "replay" && argc >= 4) {
     std::string prop = argv[2], cid = argv[3];
-    if (cid.compare(0, 2, "R|") == 0) return replay_reject(cid);
+    if (cid.compare(0, 2, "R|") == 0 || cid.compare(0, 3, "RA|") == 0) return replay_reject(cid);
     if (cid.compare(0, 2, "F|") == 0 || cid.compare(0, 2, "K|") == 0 || cid.compare(0, 3, "BF|") == 0) return replay_line(prop, cid);
     if (cid.compare(0, 3, "FZ|") == 0 || cid.compare(0, 3, "FO|") == 0) return replay_fz(cid);
     if (cid.compare(0, 4, "C17|") == 0 || cid.compare(0, 3, "C19") == 0) return replay_fi(cid);
